@@ -114,6 +114,20 @@ func (e *Env) Violate(oracle, format string, a ...interface{}) {
 	}
 }
 
+// SettleUntil settles repeatedly until cond holds or max of fake time has
+// passed. Harness activities that alternate sleeping and yielding (slow
+// producers) cannot be waited for with one fixed Settle: voluntary clock
+// advances taken while they are parked use up any fixed window.
+func (e *Env) SettleUntil(cond func() bool, step, max time.Duration) bool {
+	start := e.S.Now()
+	for !cond() && e.S.Now()-start < max {
+		if !e.S.Settle(step) {
+			return false
+		}
+	}
+	return true
+}
+
 // Invariant registers a check evaluated by the scheduler at every quiescent
 // point. A non-empty result is a violation and ends the run at once.
 func (e *Env) Invariant(oracle string, f func() string) {
